@@ -353,4 +353,463 @@ theorem doClaimToken_prog (c : Ctx) (now l : Int) (hs : Sil c l) :
   | checkTokenPass _ | awaitStatus _ =>
     intro c' h; unfold doClaimToken at h; rw [hst] at h; cases h
 
+/-! ### Listening / idle: the token-lost time-out -/
+
+theorem lost_claim (c : Ctx) (now l : Int) (hs : Sil c l) (hidle : IdleLike c.s.st)
+    (hlost : (now - l).natAbs ≥ c.s.p.tokenLostTimeout) :
+    handleLostToken c now =
+      (c, some (doClaimToken { c with s := { c.s with st := .claimToken .firstToken } } now 2)) := by
+  unfold handleLostToken
+  rw [getOrInsert_last _ _ _ hs.last]
+  simp only
+  rw [if_pos hlost]
+  have : toClaimToken c.s = some { c.s with st := .claimToken .firstToken } := by
+    unfold toClaimToken
+    rcases hidle with ⟨a, b, d, h⟩ | ⟨a, b, h⟩ <;> rw [h]
+  rw [this]
+
+theorem not_lost (c : Ctx) (now l : Int) (hs : Sil c l) (hlost : ¬ (now - l).natAbs ≥ c.s.p.tokenLostTimeout) :
+    handleLostToken c now = (c, none) := by
+  unfold handleLostToken
+  rw [getOrInsert_last _ _ _ hs.last]
+  simp only
+  rw [if_neg hlost]
+
+/-- The claim made out of `ListenToken` / `ActiveIdle`: the first self-addressed token goes out as
+soon as the synchronisation pause has passed. -/
+theorem claimFirst_result (c : Ctx) (now l : Int) (hs : Sil c l) (c' : Ctx)
+    (h : doClaimToken { c with s := { c.s with st := .claimToken .firstToken } } now 2 = .ok c') :
+    c'.s.p = c.s.p ∧ c'.s.online = true ∧
+    ((c'.tx = some (selfToken c.s.p.address) ∧ c'.s.st = .claimToken .secondToken ∧
+        c'.s.gap = .doPoll c.s.p.address ∧ c'.s.ring = c.s.ring.claimToken ∧ c'.apps = c.apps ∧ c'.calls = c.calls) ∨
+     (Sil c' l ∧ ¬ Late c.s.p l now)) := by
+  have hs' : Sil { c with s := { c.s with st := .claimToken .firstToken } } l := ⟨hs.on, hs.tx, hs.rx, hs.last⟩
+  obtain ⟨h1, h2, h3⟩ := claimTok_prog _ now l 1 hs' .firstToken (Or.inl rfl) rfl c' h
+  refine ⟨h1, h2, ?_⟩
+  rcases h3 with h3 | ⟨rfl, hnl⟩
+  · exact Or.inl h3
+  · exact Or.inr ⟨hs', hnl⟩
+
+theorem doListenToken_prog (c : Ctx) (now l : Int) (hs : Sil c l) :
+    Prog c l (fun _ => ¬ Late c.s.p l now) (doListenToken c now) := by
+  intro c' h
+  unfold doListenToken at h
+  split at h
+  · rename_i sr coll hst
+    by_cases hlost : (now - l).natAbs ≥ c.s.p.tokenLostTimeout
+    · rw [lost_claim c now l hs (Or.inr ⟨_, _, hst⟩) hlost] at h
+      simp only at h
+      obtain ⟨h1, h2, h3⟩ := claimFirst_result c now l hs c' h
+      exact ⟨h1, h2, h3.imp (fun h => by rw [h.1]; simp) id⟩
+    · rw [not_lost c now l hs hlost] at h
+      have hnl : ¬ Late c.s.p l now := fun hl => hlost hl.lost
+      simp only at h
+      split at h
+      · rename_i src coll' hst'
+        rw [waitSync_some _ _ _ hs.last] at h
+        simp only at h
+        split at h
+        · cases h; exact ⟨rfl, hs.on, Or.inr ⟨hs, hnl⟩⟩
+        · cases he : encodeOrPanic { c with s := c.s } now (fdlStatusResponseHeader (UInt8.ofNat src) (UInt8.ofNat c.s.p.address)
+              (if c.s.ring.readyForRing = true ∧ src = c.s.ring.ps then .masterWithoutToken else .masterNotReady) .ok) [] with
+          | panic s => rw [he] at h; cases h
+          | ok c1 =>
+            rw [he] at h
+            simp only [Res.bind] at h
+            obtain ⟨bytes, -, -, rfl⟩ := encodeOrPanic_cases _ _ _ _ _ he
+            split at h
+            · obtain ⟨s', hs', rfl⟩ := tr_cases _ _ _ _ h
+              unfold toActiveIdle at hs'
+              simp only [markTx, hst'] at hs'
+              cases hs'
+              exact ⟨rfl, hs.on, Or.inl (by simp)⟩
+            · cases h
+              exact ⟨rfl, hs.on, Or.inl (by simp [upd])⟩
+      · rw [hs.rx, receiveAll_nil] at h
+        simp only [foldTelegrams] at h
+        cases h
+        refine ⟨rfl, hs.on, Or.inr ⟨⟨hs.on, hs.tx, rfl, hs.last⟩, hnl⟩⟩
+      · cases h
+  · cases h
+
+theorem doActiveIdle_prog (c : Ctx) (now l : Int) (hs : Sil c l) :
+    Prog c l (fun _ => ¬ Late c.s.p l now) (doActiveIdle c now) := by
+  intro c' h
+  unfold doActiveIdle at h
+  split at h
+  · rename_i sr np coll hst
+    by_cases hlost : (now - l).natAbs ≥ c.s.p.tokenLostTimeout
+    · rw [lost_claim c now l hs (Or.inl ⟨_, _, _, hst⟩) hlost] at h
+      simp only at h
+      obtain ⟨h1, h2, h3⟩ := claimFirst_result c now l hs c' h
+      exact ⟨h1, h2, h3.imp (fun h => by rw [h.1]; simp) id⟩
+    · rw [not_lost c now l hs hlost] at h
+      have hnl : ¬ Late c.s.p l now := fun hl => hlost hl.lost
+      simp only at h
+      split at h
+      · rename_i src np' coll' hst'
+        rw [waitSync_some _ _ _ hs.last] at h
+        simp only at h
+        split at h
+        · cases h; exact ⟨rfl, hs.on, Or.inr ⟨hs, hnl⟩⟩
+        · cases he : encodeOrPanic { c with s := c.s } now (fdlStatusResponseHeader (UInt8.ofNat src) (UInt8.ofNat c.s.p.address)
+              .masterInRing .ok) [] with
+          | panic s => rw [he] at h; cases h
+          | ok c1 =>
+            rw [he] at h
+            simp only [Res.bind] at h
+            obtain ⟨bytes, -, -, rfl⟩ := encodeOrPanic_cases _ _ _ _ _ he
+            cases h
+            exact ⟨rfl, hs.on, Or.inl (by simp [upd])⟩
+      · rw [hs.rx, receiveAll_nil] at h
+        simp only [foldTelegrams] at h
+        cases h
+        refine ⟨rfl, hs.on, Or.inr ⟨⟨hs.on, hs.tx, rfl, hs.last⟩, hnl⟩⟩
+      · cases h
+  · cases h
+
+/-! ### Waiting for a GAP reply, supervising a token pass -/
+
+theorem doPassToken_prog' (c0 c : Ctx) (now l : Int) (hs : Sil c l) (hp : c.s.p = c0.s.p) :
+    Prog c0 l (fun _ => ¬ Late c0.s.p l now) (doPassToken c now) := by
+  intro c' h
+  obtain ⟨h1, h2, h3⟩ := doPassToken_prog c now l hs c' h
+  refine ⟨h1.trans hp, h2, h3.imp id (fun ⟨a, b, _⟩ => ⟨a, by rw [← hp]; exact b⟩)⟩
+
+theorem doAwaitStatusResponse_prog (c : Ctx) (now l : Int) (hs : Sil c l) :
+    Prog c l (fun _ => ¬ Late c.s.p l now) (doAwaitStatusResponse c now) := by
+  intro c' h
+  unfold doAwaitStatusResponse at h
+  split at h
+  · rename_i a hst
+    rcases hag : awaitGapPollResponse c now a with ⟨r, g⟩
+    rw [hag] at h
+    cases r with
+    | panic s => cases h
+    | ok c1 =>
+      obtain ⟨rfl, hgap, rfl⟩ := awaitGap_silent c now l a hs c1 g hag
+      by_cases hsl : now > l + (c1.s.p.slotTime : Nat)
+      · rw [if_pos hsl] at h
+        simp only at h
+        cases htr : tr c1 (fun s => toPassToken s false .first) "transition_pass_token" with
+        | panic s => rw [htr] at h; cases h
+        | ok c2 =>
+          rw [htr] at h
+          simp only [Res.bind] at h
+          obtain ⟨s', hs', rfl⟩ := tr_cases _ _ _ _ htr
+          have := toPassToken_eq hs'
+          subst this
+          exact doPassToken_prog' c1 { c1 with s := { c1.s with st := .passToken false .first } } now l ⟨hs.on, hs.tx, hs.rx, hs.last⟩ rfl c' h
+      · rw [if_neg hsl] at h
+        simp only at h
+        cases h
+        exact ⟨rfl, hs.on, Or.inr ⟨hs, fun hl => absurd hl.slot hsl⟩⟩
+  · cases h
+
+theorem doCheckTokenPass_prog (c : Ctx) (now l : Int) (hs : Sil c l) :
+    Prog c l (fun _ => ¬ Late c.s.p l now) (doCheckTokenPass c now) := by
+  intro c' h
+  unfold doCheckTokenPass at h
+  split at h
+  · rename_i att hst
+    rw [checkSlot_some _ _ _ hs.last] at h
+    simp only [decide_eq_true_eq] at h
+    by_cases hsl : now > l + (c.s.p.slotTime : Nat)
+    · rw [if_pos hsl] at h
+      have pass : ∀ (c0 : Ctx) (a' : Attempt), Sil c0 l → c0.s.p = c.s.p →
+          ((tr c0 (fun s => toPassToken s false a') "transition_pass_token").bind fun c => doPassToken c now) = .ok c' →
+          c'.s.p = c.s.p ∧ c'.s.online = true ∧ (c'.tx ≠ none ∨ (Sil c' l ∧ ¬ Late c.s.p l now)) := by
+        intro c0 a' hs0 hp0 h
+        cases htr : tr c0 (fun s => toPassToken s false a') "transition_pass_token" with
+        | panic s => rw [htr] at h; cases h
+        | ok c2 =>
+          rw [htr] at h
+          simp only [Res.bind] at h
+          obtain ⟨s', hs', rfl⟩ := tr_cases _ _ _ _ htr
+          have := toPassToken_eq hs'
+          subst this
+          exact doPassToken_prog' c { c0 with s := { c0.s with st := .passToken false a' } } now l ⟨hs0.on, hs0.tx, hs0.rx, hs0.last⟩ hp0 c' h
+      cases att with
+      | first => exact pass _ _ hs rfl h
+      | second => exact pass _ _ hs rfl h
+      | third =>
+        simp only at h
+        split at h
+        · simp only [Res.bind] at h; cases h
+        · rename_i r hr
+          exact pass (upd c fun s => { s with ring := r }) _ ⟨hs.on, hs.tx, hs.rx, hs.last⟩ rfl h
+    · rw [if_neg hsl] at h
+      rw [hs.rx, receiveAll_nil] at h
+      simp only at h
+      cases h
+      exact ⟨rfl, hs.on, Or.inr ⟨⟨hs.on, hs.tx, rfl, hs.last⟩, fun hl => absurd hl.slot hsl⟩⟩
+  · cases h
+
+/-! ### Holding the token: applications -/
+
+theorem appTransmit_sil (c : Ctx) (now l : Int) (hp : Bool) (hs : Sil c l) (c' : Ctx) (b : Bool)
+    (h : appTransmit c now hp = (.ok c', b)) :
+    c'.s.p = c.s.p ∧ c'.s.online = true ∧ (b = true → c'.tx ≠ none) ∧ (b = false → Sil c' l ∧ c'.s = c.s) := by
+  unfold appTransmit at h
+  simp only at h
+  split at h
+  · cases h
+  · rename_i script hscr
+    split at h
+    · injection h with h1 h2
+      cases h1; cases h2
+      exact ⟨rfl, hs.on, (fun hb => by cases hb), fun _ => ⟨⟨hs.on, hs.tx, hs.rx, hs.last⟩, rfl⟩⟩
+    · rename_i hd pdu hans
+      split at h
+      · cases h
+      · rename_i bytes hser
+        split at h
+        · rename_i addr hexp
+          split at h
+          · rename_i d fcd hst
+            split at h
+            · rename_i s' hs'
+              injection h with h1 h2
+              cases h2
+              obtain ⟨-, rfl⟩ := transmit_cases _ _ _ _ h1
+              have := toAwaitData_eq hs'
+              subst this
+              exact ⟨rfl, hs.on, fun _ => by simp, fun hb => by cases hb⟩
+            · cases h
+          · cases h
+        · injection h with h1 h2
+          cases h2
+          obtain ⟨-, rfl⟩ := transmit_cases _ _ _ _ h1
+          exact ⟨rfl, hs.on, fun _ => by simp, fun hb => by cases hb⟩
+
+theorem appsTransmit_sil (now l : Int) (hp : Bool) : ∀ (k : Nat) (c : Ctx), Sil c l → ∀ (c' : Ctx) (b : Bool),
+    appsTransmit now hp k c = (.ok c', b) →
+    c'.s.p = c.s.p ∧ c'.s.online = true ∧ (b = true → c'.tx ≠ none) ∧ (b = false → Sil c' l ∧ c'.s.gap = c.s.gap) := by
+  intro k
+  induction k with
+  | zero =>
+    intro c hs c' b h
+    simp only [appsTransmit] at h
+    injection h with h1 h2
+    cases h1; cases h2
+    exact ⟨rfl, hs.on, (fun hb => by cases hb), fun _ => ⟨hs, rfl⟩⟩
+  | succ k ih =>
+    intro c hs c' b h
+    simp only [appsTransmit] at h
+    rcases hat : appTransmit c now hp with ⟨r, b1⟩
+    rw [hat] at h
+    cases r with
+    | panic s => simp only at h; cases h
+    | ok c1 =>
+      obtain ⟨hp1, ho1, ht1, hf1⟩ := appTransmit_sil c now l hp hs c1 b1 hat
+      cases b1 with
+      | true =>
+        simp only at h
+        injection h with h1 h2
+        cases h1; cases h2
+        exact ⟨hp1, ho1, fun _ => ht1 rfl, fun hb => by cases hb⟩
+      | false =>
+        obtain ⟨hs1, he1⟩ := hf1 rfl
+        simp only at h
+        split at h
+        · rename_i d fcd hst
+          split at h
+          · injection h with h1 h2
+            cases h1; cases h2
+            exact ⟨hp1, ho1, (fun hb => by cases hb),
+              fun _ => ⟨⟨hs1.on, hs1.tx, hs1.rx, hs1.last⟩, by simp only [upd]; rw [he1]⟩⟩
+          · obtain ⟨hp2, ho2, ht2, hf2⟩ := ih _ (by exact ⟨hs1.on, hs1.tx, hs1.rx, hs1.last⟩) c' b h
+            refine ⟨hp2.trans hp1, ho2, ht2, fun hb => ?_⟩
+            obtain ⟨a, b'⟩ := hf2 hb
+            exact ⟨a, by rw [b']; show c1.s.gap = c.s.gap; rw [he1]⟩
+        · cases h
+
+/-- One message-cycle attempt: an application transmits, or the token is passed on (next poll). -/
+theorem useTokenGo_prog (c : Ctx) (now l : Int) (d : UseData) (hp : Bool) (hs : Sil c l) :
+    Prog c l (fun c' => c'.s.st = .passToken true .first ∧ c'.s.gap = c.s.gap) (useTokenGo c now d hp) := by
+  intro c' h
+  unfold useTokenGo at h
+  simp only at h
+  rcases hat : appsTransmit now hp (upd c fun s => { s with st := .useToken d true }).apps.length
+    (upd c fun s => { s with st := .useToken d true }) with ⟨r, b⟩
+  rw [hat] at h
+  cases r with
+  | panic s => simp only at h; cases h
+  | ok c1 =>
+    obtain ⟨hp1, ho1, ht1, hf1⟩ := appsTransmit_sil now l hp _ _ (sil_setSt hs _) c1 b hat
+    cases b with
+    | true =>
+      simp only at h
+      cases h
+      exact ⟨hp1, ho1, Or.inl (ht1 rfl)⟩
+    | false =>
+      simp only at h
+      obtain ⟨hs1, hg1⟩ := hf1 rfl
+      obtain ⟨s', hs', rfl⟩ := tr_cases _ _ _ _ h
+      have := toPassToken_eq hs'
+      subst this
+      exact ⟨hp1, ho1, Or.inr ⟨⟨hs1.on, hs1.tx, hs1.rx, hs1.last⟩, rfl, hg1⟩⟩
+
+theorem doUseToken_prog (c : Ctx) (now l : Int) (hs : Sil c l) :
+    Prog c l (fun c' => Late c.s.p l now → c'.s.st = .passToken true .first ∧ c'.s.gap = c.s.gap) (doUseToken c now) := by
+  intro c' h
+  unfold doUseToken at h
+  split at h
+  · rename_i d fcd hst
+    have hk := holdUpdate_keeps c.s d
+    have hce := coreEq_holdUpdate c.s d
+    have hs1 : Sil { c with s := holdUpdate c.s d } l :=
+      ⟨by show (holdUpdate c.s d).online = true; rw [hce.2.2.1]; exact hs.on, hs.tx, hs.rx,
+       by show (holdUpdate c.s d).lastBusActivity = some l; rw [hk.1]; exact hs.last⟩
+    have hlast : (holdUpdate c.s d).lastBusActivity = some l := hs1.last
+    simp only at h
+    rw [waitSync_some _ _ _ hlast] at h
+    simp only at h
+    rw [hk.2] at h
+    by_cases hw : now ≤ l + (c.s.p.bits 33 : Nat)
+    · rw [if_pos (by simpa using hw)] at h
+      cases h
+      exact ⟨hk.2, hs1.on, Or.inr ⟨hs1, fun hl => absurd hw hl.sync⟩⟩
+    · rw [if_neg (by simpa using hw)] at h
+      have go : ∀ hp, useTokenGo { c with s := holdUpdate c.s d } now d hp = .ok c' →
+          c'.s.p = c.s.p ∧ c'.s.online = true ∧
+          (c'.tx ≠ none ∨ (Sil c' l ∧ (Late c.s.p l now → c'.s.st = .passToken true .first ∧ c'.s.gap = c.s.gap))) := by
+        intro hp hgo
+        obtain ⟨h1, h2, h3⟩ := useTokenGo_prog _ now l d hp hs1 c' hgo
+        exact ⟨h1.trans hk.2, h2, h3.imp id (fun ⟨a, b, g⟩ => ⟨a, fun _ => ⟨b, g.trans hce.2.2.2.1⟩⟩)⟩
+      split at h
+      · exact go _ h
+      · split at h
+        · exact go _ h
+        · obtain ⟨s', hs', rfl⟩ := tr_cases _ _ _ _ h
+          have := toPassToken_eq hs'
+          subst this
+          exact ⟨hk.2, hs1.on, Or.inr ⟨⟨hs1.on, hs1.tx, hs1.rx, hs1.last⟩, fun _ => ⟨rfl, hce.2.2.2.1⟩⟩⟩
+  · cases h
+
+/-! ### Waiting for a data reply -/
+
+/-- Reply time-out: after the slot time with nothing received, the requesting application gets exactly
+one `timeout` record and the poll continues as a `UseToken` poll (first cycle done). -/
+theorem awaitData_timeout (c : Ctx) (now l : Int) (addr : Nat) (d : UseData) (hs : Sil c l)
+    (hst : c.s.st = .awaitData addr d) (happ : c.s.nextApp < c.apps.length)
+    (hsl : now > l + (c.s.p.slotTime : Nat)) :
+    doAwaitDataResponse c now =
+      doUseToken { c with calls := c.calls ++ [.timeout c.s.nextApp addr], s := { c.s with st := .useToken d true } } now := by
+  unfold doAwaitDataResponse
+  rw [hst]
+  simp only
+  rw [if_neg (by omega), hs.rx, receiveTelegram_nil]
+  simp only
+  rw [checkSlot_some _ _ _ hs.last]
+  simp only [decide_eq_true_eq]
+  rw [if_pos hsl]
+  simp only [tr, toUseToken, hst, Res.bind, upd]
+
+theorem awaitData_wait (c : Ctx) (now l : Int) (addr : Nat) (d : UseData) (hs : Sil c l)
+    (hst : c.s.st = .awaitData addr d) (happ : c.s.nextApp < c.apps.length)
+    (hsl : ¬ now > l + (c.s.p.slotTime : Nat)) : doAwaitDataResponse c now = .ok c := by
+  unfold doAwaitDataResponse
+  rw [hst]
+  simp only
+  rw [if_neg (by omega), hs.rx, receiveTelegram_nil]
+  simp only
+  rw [checkSlot_some _ _ _ hs.last]
+  simp only [decide_eq_true_eq]
+  rw [if_neg hsl]
+  have hrx := hs.rx
+  cases c; simp only at hrx; subst hrx; rfl
+
+theorem doAwaitDataResponse_prog (c : Ctx) (now l : Int) (hs : Sil c l) (addr : Nat) (d : UseData)
+    (hst : c.s.st = .awaitData addr d) (happ : c.s.nextApp < c.apps.length) :
+    Prog c l (fun c' => Late c.s.p l now → c'.s.st = .passToken true .first ∧ c'.s.gap = c.s.gap) (doAwaitDataResponse c now) := by
+  by_cases hsl : now > l + (c.s.p.slotTime : Nat)
+  · rw [awaitData_timeout c now l addr d hs hst happ hsl]
+    exact doUseToken_prog { c with calls := c.calls ++ [.timeout c.s.nextApp addr], s := { c.s with st := .useToken d true } }
+      now l ⟨hs.on, hs.tx, hs.rx, hs.last⟩
+  · rw [awaitData_wait c now l addr d hs hst happ hsl]
+    intro c' h
+    cases h
+    exact ⟨rfl, hs.on, Or.inr ⟨hs, fun hl => absurd hl.slot hsl⟩⟩
+
+/-! ### The whole poll -/
+
+theorem dispatch_prog (c : Ctx) (now l : Int) (hs : Sil c l) (hinv : Inv c.s c.apps) :
+    Prog c l (fun c' => Late c.s.p l now → Deferred c.s c'.s) (dispatch c now) := by
+  unfold dispatch
+  cases hst : c.s.st with
+  | offline => exact Prog.panic _
+  | passiveIdle => exact Prog.panic _
+  | listenToken a b => exact (doListenToken_prog c now l hs).mono (fun _ hn hl => absurd hl hn)
+  | activeIdle a b d => exact (doActiveIdle_prog c now l hs).mono (fun _ hn hl => absurd hl hn)
+  | claimToken a =>
+    exact doClaimToken_prog c now l hs
+  | useToken d f =>
+    exact (doUseToken_prog c now l hs).mono (fun _ hd hl => Or.inl ⟨Or.inl ⟨d, f, hst⟩, (hd hl).1⟩)
+  | awaitData a d =>
+    exact (doAwaitDataResponse_prog c now l hs a d hst (hinv.appWait a d hst)).mono
+      (fun _ hd hl => Or.inl ⟨Or.inr ⟨a, d, hst⟩, (hd hl).1⟩)
+  | passToken a b => exact (doPassToken_prog c now l hs).mono (fun _ hn hl => absurd hl hn.1)
+  | checkTokenPass a => exact (doCheckTokenPass_prog c now l hs).mono (fun _ hn hl => absurd hl hn)
+  | awaitStatus a => exact (doAwaitStatusResponse_prog c now l hs).mono (fun _ hn hl => absurd hl hn)
+
+theorem checkBus_nil (s : Station) (now : Int) : checkBusActivity s now 0 = s := by
+  unfold checkBusActivity; simp
+
+/-- A poll whose time is not later than the stamp only refreshes the stamp (to the same value). -/
+theorem markBus_same (s : Station) (now l : Int) (h : s.lastBusActivity = some l) (hle : now ≤ l) :
+    markBusActivity s now = s := by
+  unfold markBusActivity
+  rw [h]
+  simp only [Option.getD_some]
+  rw [Int.max_eq_left hle, ← h]
+
+/-- One silent poll at the `poll_inner` level, stated for the context after `pollStart`. -/
+theorem pollInner_prog (c : Ctx) (now l : Int) (hs : Sil c l) (hinv : Inv c.s c.apps) (hno : c.s.st ≠ .offline) :
+    Prog c l (fun c' => Late c.s.p l now → Deferred c.s c'.s) (pollInner c now false) := by
+  have hps : pollStart c = .ok c := by
+    unfold pollStart
+    cases hst : c.s.st with
+    | offline => exact absurd hst hno
+    | passiveIdle => exact absurd hst hinv.noPassive
+    | _ => rfl
+  unfold pollInner
+  rw [if_neg (by simp [hs.on]), hps]
+  simp only [Res.bind]
+  by_cases hle : now ≤ l
+  · rw [if_pos (by simp [ongoing, hs.last, hle])]
+    intro c' h
+    cases h
+    simp only [upd]
+    rw [markBus_same _ _ _ hs.last hle]
+    exact ⟨rfl, hs.on, Or.inr ⟨⟨hs.on, hs.tx, hs.rx, hs.last⟩, fun hl => absurd hl.after (by omega)⟩⟩
+  · rw [if_neg (by simp [ongoing, hs.last, hle])]
+    have : (upd c fun s => checkBusActivity s now c.rx.length) = c := by
+      simp only [upd, hs.rx, List.length_nil, checkBus_nil]
+      have hrx := hs.rx
+      cases c; simp only at hrx; subst hrx; rfl
+    rw [this]
+    exact dispatch_prog c now l hs hinv
+
+/-- A station that has just been switched online (state still `Offline`) starts listening. -/
+theorem pollInner_prog_offline (c : Ctx) (now l : Int) (hs : Sil c l) (hinv : Inv c.s c.apps) (hoff : c.s.st = .offline) :
+    Prog c l (fun _ => ¬ Late c.s.p l now) (pollInner c now false) := by
+  have hinv1 : Inv { c.s with st := .listenToken none 0 } c.apps := hinv.setSt hs.on _ (by simp) (by simp) (by simp)
+  have hs1 : Sil { c with s := { c.s with st := .listenToken none 0 } } l := ⟨hs.on, hs.tx, hs.rx, hs.last⟩
+  have h1 := pollInner_prog _ now l hs1 hinv1 (by simp)
+  have heq : pollInner c now false = pollInner { c with s := { c.s with st := .listenToken none 0 } } now false := by
+    unfold pollInner
+    simp only [hs.on, pollStart, hoff, tr, toListenToken]
+    rfl
+  rw [heq]
+  intro c' h
+  obtain ⟨a, b, d⟩ := h1 c' h
+  refine ⟨a, b, d.imp id (fun ⟨x, y⟩ => ⟨x, fun hl => ?_⟩)⟩
+  rcases y hl with ⟨hu | hu, -⟩ | ⟨hu, -⟩ | ⟨hu | hu, -⟩
+  · obtain ⟨_, _, hu⟩ := hu; cases hu
+  · obtain ⟨_, _, hu⟩ := hu; cases hu
+  · cases hu
+  · cases hu
+  · obtain ⟨_, hu⟩ := hu; cases hu
+
 end PV
